@@ -942,7 +942,7 @@ func runC17(w *W) {
 			if !o.Mapping || bodyKind == hbFormEmpty {
 				env.API = t.Intn(2, "env.api.bin")
 			}
-			env.J2T = drawJ2TEnv(w, len(expBytes), len(req.JBytes))
+			env.J2T = drawJ2TEnvAt(w, expBytes, len(req.JBytes), nil)
 			if env.API == apiHTTPDoInto {
 				// the caller's buffer starts empty: capacity classes around the output size
 				switch t.Intn(5, "env.http.cap") {
